@@ -248,6 +248,13 @@ func (e *Environment) Get(name string) (Object, bool) {
 		return nil, false
 	}
 	obj, ok := e.store[name]
+	if r, isRef := obj.(Reference); ok && isRef {
+		if _, bound := r.RefEnv.store[r.Name]; !bound {
+			// The variable was deleted (del) after this reference was made: the name is not bound anymore.
+			delete(e.store, name)
+			obj, ok = nil, false
+		}
+	}
 	if !ok && e.function != nil && e.function.Name != nil && name == e.function.Name.Literal() {
 		return *e.function, true // (a parameter or local of the same name shadows the function)
 	}
